@@ -18,7 +18,8 @@ TRUSTED = ["pyserial behaviour = fake port (write/readline succeed, b'' on timeo
 ASSUMPTIONS = ["replies are ASCII lines; faults are SerialException; payloads of name-correct replies are well-formed for the method that parses them"]
 
 REQS = ["QM", "V", "I", "QB", "QS", "QG", "A", "QP", "QE", "QC", "QT", "PI,B,1", "QL,3", "I,1", "S,1", "QR", "ES"]
-CMDS = ["EM,1,1", "SP,1,100", "TP", "SM,100,0,0", "R", "RB", "BL", "CS", "SC,4,16000", "S,2", "XM,10,1,1", "T3,1,0,0,0,0,0,0,3", "CU,50,0"]
+CMDS = ["EM,1,1", "SP,1,100", "TP", "SM,100,0,0", "R", "RB", "BL", "CS", "SC,4,16000", "S,2", "XM,10,1,1", "T3,1,0,0,0,0,0,0,3", "CU,50,0",
+        "B", "L,1,2", "b,7", "l", "LB", "BR", "r,1", "C", "N,1", "O,1,2,3", "Z"]        # one-letter names, incl. the letters of the reboot-class names
 WS = ["", "", " ", "\t", " \r\n", "  "]
 
 def _expected(call, events):
@@ -70,7 +71,7 @@ def generate(rng, tier):
         cases.append({"calls": pre_calls + calls, "events": pre_ev + sum(parts, []), "family": fam,
                       "expect": (["SKIP"] + expect) if expect is not None else None})
     # 1. systematic: every method, a fault / error line / wrong name / silence at every I/O position of its nominal exchange
-    reps = 1 if tier == "quick" else 3
+    reps = 1 if tier == "quick" else 8
     for _ in range(reps):
         for m, c in _variants(rng):
             nom = S.nominal(c, rng)
@@ -83,7 +84,7 @@ def generate(rng, tier):
                     ev = nom[:i] + repl + nom[i + 1:]
                     add([c, S.random_call(rng)], [ev, S.nominal(("status",), rng)], "%s@%d/%s" % (kind, i, m))
     # 2. request grammar x retry boundary
-    n = 120 if tier == "quick" else 2500
+    n = 120 if tier == "quick" else 8000
     for _ in range(n):
         isq = rng.random() < 0.5
         body = rng.choice(REQS if isq else CMDS)
@@ -101,12 +102,12 @@ def generate(rng, tier):
             exp = (_expected(call, ev) if not (body in ("R", "RB", "BL")) else "SKIP") if ne <= 25 else "FAIL"
         elif k < 0.5: ev = ["E", ("L", rng.choice(["!8 Err: unknown", nm + ",Err: 3", nm + ",Err: 3", nm + ",1,Err:", "Err:"]))]; fam = "errline"; exp = "FAIL"
         elif k < 0.65: ev = ["E", ("L", rng.choice(["OK", "ZZ", (nm[::-1] + "x") if (len(nm) == 2 and nm[0] != nm[1]) else ("x" + nm), nm.lower() if nm.lower() != nm else "x" + nm]))]; fam = "wrongname"; exp = "FAIL"
-        elif k < 0.8: ev = ["E"] + ["E"] * rng.randint(0, 5) + ["F"]; fam = "readfault"
-        elif k < 0.88: ev = ["F"]; fam = "writefault"
+        elif k < 0.8: ev = ["E"] + ["E"] * rng.randint(0, 5) + ["F"]; fam = "readfault"; exp = "SKIP" if (not isq and nm.upper() in ("R", "RB", "BL")) else "FAIL"
+        elif k < 0.88: ev = ["F"]; fam = "writefault"; exp = "SKIP" if (not isq and nm.upper() in ("R", "RB", "BL")) else "FAIL"
         else: ev = ["E", ("L", " " + reply + "  ")]; fam = "padded-reply"
         add([call, ("status",)], [ev, S.nominal(("status",), rng)], "grammar/%s/%s" % ("query" if isq else "command", fam), [exp, "SKIP"])
     # 3. attribution: undisturbed sequences
-    for _ in range(60 if tier == "quick" else 1200):
+    for _ in range(60 if tier == "quick" else 4000):
         calls = [S.random_call(rng) for _ in range(rng.randint(2, 5))]
         parts = [S.nominal(c, rng) for c in calls]
         add(calls, parts, "conforming-sequence", [_expected(c, p) for c, p in zip(calls, parts)])
